@@ -2,13 +2,17 @@ package c15
 
 import (
 	"bytes"
+	"encoding/binary"
 	"fmt"
 	"net"
+	"reflect"
 	"sync"
 	"testing"
 	"time"
 
 	"ergo.services/ergo/gen"
+	"ergo.services/ergo/lib"
+	"ergo.services/ergo/net/edf"
 	"ergo.services/ergo/net/handshake"
 	"pgregory.net/rapid"
 
@@ -140,11 +144,55 @@ var recAdv = kit.NewRecorder("C15", "adversary",
 		"non-trivial = the script got past the victim's first message check (the victim answered at least once); distinct by script")
 
 type advStep struct {
-	kind   int // 0 replay 1 mutated replay 2 reflect 3 garbage 4 silence
+	kind   int // 0 replay 1 mutated replay 2 reflect 3 garbage 4 silence 5 recorded message with one field rewritten
 	from   int // which recorded message
 	flips  []int
 	cutTo  int
 	extend int
+	field  int // kind 5: which field
+	value  int // kind 5: which replacement
+}
+
+var tweakFields = []string{"Digest", "DigestCert", "Salt", "Node", "ConnectionID", "ID", "Creation"}
+var tweakStrings = []string{"", "0", "e3b0c44298fc1c149afbf4c8996fb92427ae41e4649b934ca495991b7852b855", "evil@h", "the-connection-id", "victim@h"}
+
+// tweakMessage decodes a recorded handshake message (6 byte header + EDF), rewrites one field
+// with a value that needs no knowledge of the cookie, and encodes it again. nil: not applicable.
+func tweakMessage(rec []byte, st advStep) []byte {
+	if len(rec) < 7 {
+		return nil
+	}
+	v, _, err := edf.Decode(rec[6:], edf.Options{})
+	if err != nil || v == nil {
+		return nil
+	}
+	rv := reflect.New(reflect.TypeOf(v)).Elem()
+	rv.Set(reflect.ValueOf(v))
+	if rv.Kind() != reflect.Struct {
+		return nil
+	}
+	f := rv.FieldByName(tweakFields[st.field%len(tweakFields)])
+	if !f.IsValid() {
+		return nil
+	}
+	switch f.Kind() {
+	case reflect.String:
+		f.SetString(tweakStrings[st.value%len(tweakStrings)])
+	case reflect.Int64:
+		f.SetInt(int64(st.value))
+	default:
+		return nil
+	}
+	buf := lib.TakeBuffer()
+	defer lib.ReleaseBuffer(buf)
+	buf.Allocate(6)
+	if err := edf.Encode(rv.Interface(), buf, edf.Options{}); err != nil {
+		return nil
+	}
+	out := append([]byte(nil), buf.B...)
+	copy(out[:2], rec[:2])
+	binary.BigEndian.PutUint32(out[2:6], uint32(len(out)-6))
+	return out
 }
 
 func honestTranscripts(cookie string, join bool) (starter [][]byte, acceptor [][]byte, id string) {
@@ -197,8 +245,25 @@ func propAdversary(t *rapid.T) {
 	}
 	n := rapid.IntRange(1, 5).Draw(t, "steps")
 	var steps []advStep
+	if rapid.Bool().Draw(t, "follow_protocol") && len(own) > 0 {
+		// the structured adversary: the recorded messages of the role it plays, in protocol order,
+		// each one verbatim or with one field rewritten (mostly the cookie proofs)
+		n = 0
+		for i := range own {
+			s := advStep{kind: rapid.SampledFrom([]int{0, 0, 0, 5, 5}).Draw(t, "step"), from: -1 - i}
+			if s.kind == 5 {
+				s.field = rapid.SampledFrom([]int{0, 0, 0, 0, 1, 2, 3, 4, 5, 6}).Draw(t, "field")
+				s.value = rapid.IntRange(0, len(tweakStrings)-1).Draw(t, "value")
+			}
+			steps = append(steps, s)
+		}
+	}
 	for i := 0; i < n; i++ {
-		s := advStep{kind: rapid.IntRange(0, 4).Draw(t, "step")}
+		s := advStep{kind: rapid.IntRange(0, 5).Draw(t, "step")}
+		if s.kind == 5 {
+			s.field = rapid.IntRange(0, len(tweakFields)-1).Draw(t, "field")
+			s.value = rapid.IntRange(0, len(tweakStrings)-1).Draw(t, "value")
+		}
 		if rapid.Bool().Draw(t, "own_role_message") && len(own) > 0 {
 			// the i-th message of the role the adversary plays, in order: the most promising replay
 			s.from = -1 - (i % len(own))
@@ -275,6 +340,8 @@ func propAdversary(t *rapid.T) {
 			out = append([]byte{87, 1, 0, 0, 0, byte(len(body))}, body...)
 		case 4:
 			time.Sleep(2 * time.Millisecond)
+		case 5:
+			out = tweakMessage(pick(s), s)
 		}
 		joinMsg := st2[0]
 		if useJoin {
@@ -282,6 +349,17 @@ func propAdversary(t *rapid.T) {
 		}
 		if role == 0 && bytes.HasPrefix(out, joinMsg) {
 			isJoinReplay = true // a recorded Join sent verbatim (possibly followed by more bytes): the open known finding
+		}
+		if role == 0 && len(out) > 6 && len(joinMsg) > 6 {
+			// the same finding: the recorded proof (connection id, salt, digest) in a Join whose other
+			// fields were rewritten - the digest covers neither the node name nor anything else
+			a, _, e1 := edf.Decode(out[6:], edf.Options{})
+			b, _, e2 := edf.Decode(joinMsg[6:], edf.Options{})
+			ja, ok1 := a.(handshake.MessageJoin)
+			jb, ok2 := b.(handshake.MessageJoin)
+			if e1 == nil && e2 == nil && ok1 && ok2 && ja.ConnectionID == jb.ConnectionID && ja.Salt == jb.Salt && ja.Digest == jb.Digest {
+				isJoinReplay = true
+			}
 		}
 		if len(out) > 0 {
 			ca.SetWriteDeadline(time.Now().Add(300 * time.Millisecond))
